@@ -216,6 +216,46 @@ def run_case(ctx, nix, np, path, rng, recipe, rep):
                         bad("region_read", why, region=repr(sl), got=reg, expected=model[sl])
                 except Exception as e:
                     bad("region_read", "raises_" + type(e).__name__, error=repr(e), region=repr(sl))
+            # further read paths: iteration over the first axis, the deprecated .data alias, get_slice by index
+            if model.ndim and rng.random() < 0.5:
+                try:
+                    rows = [np.asarray(r) for r in d]
+                    ctx.count("iterations")
+                    if len(rows) != model.shape[0]:
+                        bad("iteration", "length", got=len(rows), expected=model.shape[0])
+                    for i, r in enumerate(rows):
+                        if model.ndim == 1:
+                            m1 = np.empty((1,), dtype=model.dtype)
+                            m1[0] = model[i]
+                            why = c.same(r, m1, mask[i:i + 1], dt)
+                        else:
+                            why = c.same(r, model[i], mask[i], dt)
+                        if why:
+                            bad("iteration", why, row=i, got=r, expected=model[i])
+                            break
+                except Exception as e:
+                    bad("iteration", "raises_" + type(e).__name__, error=repr(e))
+            if rng.random() < 0.4:
+                try:
+                    alias = d.data
+                    why = c.same(np.asarray(alias[:]), model, mask, dt)
+                    if why:
+                        bad("data_alias", why, got=np.asarray(alias[:]), expected=model)
+                except Exception as e:
+                    bad("data_alias", "raises_" + type(e).__name__, error=repr(e))
+            if model.size and rng.random() < 0.5:
+                pos = [rng.randrange(s) for s in model.shape]
+                ext = [rng.randint(1, s - p) for p, s in zip(pos, model.shape)]
+                sl = tuple(slice(p, p + e) for p, e in zip(pos, ext))
+                try:
+                    view = d.get_slice(pos, ext)
+                    ctx.count("get_slice_reads")
+                    got = np.asarray(view[:])
+                    why = c.same(got, model[sl], mask[sl], dt)
+                    if why:
+                        bad("get_slice_index", why, positions=pos, extents=ext, got=got, expected=model[sl])
+                except Exception as e:
+                    bad("get_slice_index", "raises_" + type(e).__name__, error=repr(e), positions=pos, extents=ext)
             # raw h5py second witness
             try:
                 raw = d._h5group.group["data"]
